@@ -130,6 +130,9 @@ func NewChildExecutionContext(parent *ExecutionContext) *ExecutionContext {
 	newctx := &ExecutionContext{
 		template: parent.template,
 		depth:    parent.depth,
+		// (a macro defined inside a macro body, a for or a with counts on from where
+		// its surroundings are: the bound is one bound for the whole rendering)
+		macroDepth: parent.macroDepth,
 
 		Public:     parent.Public,
 		Private:    make(Context),
